@@ -219,7 +219,7 @@ where
     let other_col = enum_iterator::all::<D::Column>()
         .find(|c: &D::Column| c.name() != spec.table && c.id() != D::metadata_column().id());
     let fault = Arc::new(AtomicU8::new(0));
-    let use_rocks = ctx.tape.chance(1, 3);
+    let use_rocks = ctx.tape.chance(1, 5);
     let disk: Disk<D> = if use_rocks {
         let policy = match ctx.tape.below(3) {
             0 => StateRewindPolicy::NoRewind,
